@@ -6,6 +6,7 @@ import Driver.Fetch
 import Driver.StyleOps
 import Driver.PubOps
 import Driver.UiOps
+import Driver.PresentOps
 
 /-
   One function per op of the line protocol.  Each takes the op's JSON (which also carries the
@@ -134,6 +135,7 @@ def dispatch (j : Json) : Except String Res := do
   | "styleexpr" => styleExprOp j
   | "problem" => problemOp j
   | "pubfuzz" => pubFuzzOp j
+  | "present" => presentOp j
   | "statusline" | "ctline" | "locline" | "headers" => jtpLineOp op j
   | "fetchseq" => fetchSeqOp j
   | "webfinger" => webfingerOp j
